@@ -108,13 +108,13 @@ From MLPE Require Import Proofs.Micro Proofs.SwitchAll Proofs.ArgsAll.
 Theorem C03_arguments_come_from_the_declared_inputs :
   forall P st, reachable P st ->
     forall a b i k kw, st_trace st = a ++ OStart i k kw :: b ->
-      exists n val ad, real_index n = i /\ gen_kwargs P n val ad = Some kw /\ forall p v, val p = Some v -> prov P b p v.
+      exists n val ad, real_index n = i /\ gen_kwargs P n val ad = Some kw /\ (forall p v, val p = Some v -> prov P b p v) /\ ad_ok P b n ad.
 Proof. exact arguments_come_from_the_declared_inputs_all_programs. Qed.
 Print Assumptions C03_arguments_come_from_the_declared_inputs.
 
 Theorem C03_default_arguments_come_from_the_declared_inputs :
   forall P st, reachable P st ->
     forall a b i kw, st_trace st = a ++ ODefault i kw :: b ->
-      exists n val ad, real_index n = i /\ gen_kwargs P n val ad = Some kw /\ forall p v, val p = Some v -> prov P b p v.
+      exists n val ad, real_index n = i /\ gen_kwargs P n val ad = Some kw /\ (forall p v, val p = Some v -> prov P b p v) /\ ad_ok P b n ad.
 Proof. exact default_arguments_come_from_the_declared_inputs_all_programs. Qed.
 Print Assumptions C03_default_arguments_come_from_the_declared_inputs.
